@@ -28,6 +28,9 @@ EXPLANATION = (
 EXPLANATION += (
     " ADDED: C04.7 (heuristic detection, abstract interpretation over the five (first trace, last trace) classes of a header field: constant zero, constant non-zero, zero->non-zero, non-zero->zero, two different non-zero values): the helper lists of HeaderwordInfo are evaluated as predicates; the varying base of the stored-array list and of the duplicate finder is exactly the three varying classes, the table constants exactly the constant non-zero class. C04.8: both converters write the footer at the reader's stride and in table order (rule of C03.5). C04.4 also covers the reduced-I/O reader: it is addressed by window-local line ordinals, so every path on which it survives must establish source line count == window line count on both axes; the plane read on each side of `i < planes_to_read` is ordinal i / the last real ordinal."
 )
+EXPLANATION += (
+    ' C04.9: every decode of bytes fetched from a footer array (range read at a template FileOffset) is a signed 32-bit decode (np.frombuffer int32 or the signed codec).'
+)
 ASSUMPTIONS = [
     'segyio returns what the file holds; segyio.TraceField enumerates the 89 SEG-Y trace header fields in ascending byte order',
     'the reader assigns footer offsets in the order of the header-word table, which lists the fields in ascending order',
